@@ -24,6 +24,9 @@ def run(tier):
     from ..contracts import lossgrad as LG
     for rel, q, c, tag in LG.PUBLIC_ITEMS:
         reps.append(deductive.verify_function(rel, q, c, hooks=LG.OneCellHooks(public=True), module_env=LG.ENV, prefix='%s::%s[one-cell instance]' % (rel, q)))
+    from ..contracts import lossnd as ND
+    for rel, q, c, tag in ND.PUBLIC_ITEMS:
+        reps.append(deductive.verify_function(rel, q, c, hooks=ND.hooks(ND.SITES_PUBLIC), prefix='%s::%s[n-dimensional, L2]' % (rel, q)))
     return reps
 
 
